@@ -219,6 +219,22 @@ func (n *Net) Actions(add func(dsim.Action)) {
 	}
 }
 
+// AnyDeadlineHit reports whether any stream read ran into its (fake-clock) deadline:
+// the driver stalled a stream header beyond the establish timeout.
+func (n *Net) AnyDeadlineHit() bool {
+	n.mu.Lock()
+	defer n.mu.Unlock()
+	for _, st := range n.strms {
+		st.mu.Lock()
+		h := st.DeadlineHit
+		st.mu.Unlock()
+		if h {
+			return true
+		}
+	}
+	return false
+}
+
 // Idle reports that no delivery or pending callback is outstanding.
 func (n *Net) Idle() bool {
 	n.mu.Lock()
